@@ -650,7 +650,9 @@ pub fn run_seq_with_state(seq: &Seq, dir: &Path, driver: &mut Option<Driver>, op
                                     diffs.push(Diff { idx, facet: "decoder", op: format!("decode m{} after {}", id, op.text()), got: format!("{} entries decoded", got.len()), want: format!("{} entries, equal to the map contents", want.len()) });
                                 }
                             }
-                            if let Some(prev) = prev_dec.get(&id) {
+                            // (judged across single put/delete calls only: a batch call may reuse a free slot
+                            // and free it again before it extends the file for a later pair)
+                            if let (Some(prev), true) = (prev_dec.get(&id), matches!(op, Op::Put(..) | Op::Del(..))) {
                                 if let Some(e) = crate::decoder::extend_rule(prev, &dec) {
                                     diffs.push(Diff { idx, facet: "decoder", op: format!("extend-only-if-needed m{} after {}", id, op.text()), got: e, want: "file extended only when no free slot fits".into() });
                                 }
